@@ -14,7 +14,7 @@ import zlib
 
 from . import fakenet
 
-FAMILY_A = {"read", "read1", "readinto", "readloop", "read1loop", "readintoloop", "data"}
+FAMILY_A = {"read", "read1", "readinto", "readloop", "read1loop", "readintoloop", "data", "drain"}
 FAMILY_B = {"stream", "read_chunked", "iter"}
 
 
@@ -93,7 +93,8 @@ def frame(content: bytes, case) -> tuple[bytes, bytes]:
         hdrs.append((b"Transfer-Encoding", b"chunked"))
     elif framing == "cl":
         body = content
-        hdrs.append((b"Content-Length", b"%d" % len(content)))
+        # cl_list: the value repeated in one field ("42, 42"), which RFC 9110 8.6 lets a recipient accept and urllib3 does
+        hdrs.append((b"Content-Length", (b"%d, %d" if case.get("cl_list") else b"%d") % ((len(content),) * (2 if case.get("cl_list") else 1))))
     else:
         body = content
         hdrs.append((b"Connection", b"close"))
@@ -168,6 +169,8 @@ def consume(resp, ops, tail, decode: bool, expected_len: int = 1 << 30):
         elif api == "iter":
             for d in resp:
                 pieces.append(("iter", None, d))
+        elif api == "drain":
+            resp.drain_conn()  # discards the rest (what a pool does with a redirect / retry body); presents no data
         else:
             raise ValueError(api)
     except BaseException as e:  # noqa: BLE001 - classified by the caller
